@@ -961,3 +961,67 @@ package jrpc2
 //@   ensures[C18:error-no-requests] result1 != nil ==> result0 == nil
 //@   ensures[C18:members] forall(i int, 0 <= i && i < len(result0) ==> result0[i] != nil)
 //@   loop 1 invariant len(out) == len(reqs) && forall(k int, 0 <= k && k <= rangeindex ==> out[k] != nil)
+
+// ---------------------------------------------------------------------------
+// Member parsing (C02, C13)
+// ---------------------------------------------------------------------------
+
+//@ pure isNullText(t Str) Bool = len(t) == 4 && t[0] == 'n' && t[1] == 'u' && t[2] == 'l' && t[3] == 'l'
+// firstByte: first non-whitespace byte (0 if none); for a JSON text that byte
+// tells the shape (facts about the JSON grammar, trusted).
+//@ spec jsonFirst(Str) Int
+//@ axiom forall(s Str, jsonValid(s) ==> (jsonIsArray(s) == (jsonFirst(s) == '[')) && (jsonIsObject(s) == (jsonFirst(s) == '{')) && (jsonIsString(s) == (jsonFirst(s) == '"')) && (jsonIsNull(s) ==> jsonFirst(s) == 'n') && jsonFirst(s) != 0)
+//@ axiom forall(s Str, len(s) == 0 ==> jsonFirst(s) == 0)
+// Values handed out by the decoder carry no surrounding whitespace.
+//@ axiom forall(s Str, k Str, jsonIsObject(s) && jsonHasKey(s, k) ==> jsonFirst(jsonMember(s, k)) == jsonMember(s, k)[0] && (jsonIsNull(jsonMember(s, k)) == isNullText(jsonMember(s, k))))
+//@ axiom forall(s Str, i Int, jsonIsArray(s) && 0 <= i && i < jsonArrayLen(s) ==> jsonFirst(jsonElem(s, i)) == jsonElem(s, i)[0] && (jsonIsNull(jsonElem(s, i)) == isNullText(jsonElem(s, i))))
+//@ func firstByte
+//@   trusted
+//@   ensures result == jsonFirst(str(data))
+
+// idText(t): the text t is acceptable as a request id (absent, null, a string
+// or a number - judged by its first byte, as isValidID does).
+//@ pure idText(t Str) Bool = len(t) == 0 || isNullText(t) || t[0] == '"' || t[0] == '-' || (t[0] >= '0' && t[0] <= '9')
+//@ func isValidID
+//@   ensures[C02:id-shape] result == idText(str(v))
+
+// errDecodes(t): the text t decodes into a *jrpc2.Error (abstract).
+//@ spec errDecodes(Str) Bool
+
+// What each known key does when the member scan meets it.
+//@ pure strOrNull(t Str) Bool = jsonIsString(t) || jsonIsNull(t)
+//@ pure paramsText(t Str) Bool = isNullText(t) || t[0] == '[' || t[0] == '{'
+//@ pure badKey(d Str, k Str) Bool = (k == "jsonrpc" && !strOrNull(jsonMember(d, k))) || (k == "id" && !idText(jsonMember(d, k))) || (k == "method" && !strOrNull(jsonMember(d, k))) || (k == "params" && !paramsText(jsonMember(d, k))) || (k == "error" && !errDecodes(jsonMember(d, k)))
+//@ pure knownKey(k Str) Bool = k == "jsonrpc" || k == "id" || k == "method" || k == "params" || k == "error" || k == "result"
+//@ pure anyBad(d Str) Bool = (jsonHasKey(d, "jsonrpc") && badKey(d, "jsonrpc")) || (jsonHasKey(d, "id") && badKey(d, "id")) || (jsonHasKey(d, "method") && badKey(d, "method")) || (jsonHasKey(d, "params") && badKey(d, "params")) || (jsonHasKey(d, "error") && badKey(d, "error"))
+//@ pure versionOK(d Str) Bool = jsonHasKey(d, "jsonrpc") && jsonIsString(jsonMember(d, "jsonrpc")) && jsonStringVal(jsonMember(d, "jsonrpc")) == "2.0"
+
+// parseJSON: a member is rejected (j.err set, code -32700 or -32600, never
+// anything else) whenever it is not an object, has a key of the wrong shape, a
+// wrong or missing version, or unknown keys; the id is kept exactly when its
+// text is acceptable, so an error reply can echo it.
+//@ func (*jmessage).parseJSON
+//@   requires j != nil && j.err == nil
+//@   modifies j.V, j.ID, j.M, j.P, j.E, j.R, j.batch, j.err, jsonDecodes, jsonSource
+//@   ensures[C02:codes] j.err != nil ==> j.err.Code == ParseError || j.err.Code == InvalidRequest
+//@   ensures[C02:not-an-object] !jsonIsObject(str(data)) ==> j.err != nil
+//@   ensures[C02:bad-key-rejected] jsonIsObject(str(data)) && anyBad(str(data)) ==> j.err != nil
+//@   ensures[C02:version-required] jsonIsObject(str(data)) && !versionOK(str(data)) ==> j.err != nil
+//@   ensures[C02:unknown-keys-rejected] jsonIsObject(str(data)) && exists(k string, jsonHasKey(str(data), k) && !knownKey(k)) ==> j.err != nil
+//@   ensures[C02:id-kept] jsonIsObject(str(data)) && jsonHasKey(str(data), "id") && idText(jsonMember(str(data), "id")) ==> str(j.ID) == jsonMember(str(data), "id")
+//@   ensures[C02:id-dropped] jsonIsObject(str(data)) && !(jsonHasKey(str(data), "id") && idText(jsonMember(str(data), "id"))) ==> len(j.ID) == 0
+//@   ensures[C02:mixed-rejected] j.M != "" && (j.E != nil || j.R != nil) ==> j.err != nil
+//@   ensures[C13:valid-accepted] jsonIsObject(str(data)) && !anyBad(str(data)) && versionOK(str(data)) && forall(k string, jsonHasKey(str(data), k) ==> knownKey(k)) && !(j.M != "" && (j.E != nil || j.R != nil)) ==> j.err == nil
+//@   ensures[C13:fields] jsonIsObject(str(data)) ==> (jsonHasKey(str(data), "method") && jsonIsString(jsonMember(str(data), "method")) ==> j.M == jsonStringVal(jsonMember(str(data), "method"))) && (!jsonHasKey(str(data), "method") ==> j.M == "") && (jsonHasKey(str(data), "params") && !isNullText(jsonMember(str(data), "params")) ==> str(j.P) == jsonMember(str(data), "params")) && (jsonHasKey(str(data), "result") ==> str(j.R) == jsonMember(str(data), "result") && j.R != nil) && (!jsonHasKey(str(data), "result") ==> j.R == nil)
+//@   loop 1 invariant (jsonIsNull(str(data)) && obj == nil) || (jsonIsObject(str(data)) && obj != nil)
+//@   loop 1 invariant j.err != nil ==> (visited(loop1, "jsonrpc") && badKey(str(data), "jsonrpc")) || (visited(loop1, "id") && badKey(str(data), "id")) || (visited(loop1, "method") && badKey(str(data), "method")) || (visited(loop1, "params") && badKey(str(data), "params")) || (visited(loop1, "error") && badKey(str(data), "error"))
+//@   loop 1 invariant forall(k string, jsonHasKey(str(data), k) ==> knownKey(k)) ==> len(extra) == 0
+//@   loop 1 invariant (!visited(loop1, "method") ==> j.M == "") && (visited(loop1, "method") && jsonIsString(jsonMember(str(data), "method")) ==> j.M == jsonStringVal(jsonMember(str(data), "method")))
+//@   loop 1 invariant (!visited(loop1, "params") ==> j.P == nil && len(j.P) == 0) && (visited(loop1, "params") && !isNullText(jsonMember(str(data), "params")) ==> str(j.P) == jsonMember(str(data), "params"))
+//@   loop 1 invariant (!visited(loop1, "result") ==> j.R == nil) && (visited(loop1, "result") ==> str(j.R) == jsonMember(str(data), "result") && j.R != nil)
+//@   loop 1 invariant obj != nil ==> forall(k string, in(obj, k) == jsonHasKey(str(data), k) && (jsonHasKey(str(data), k) ==> str(lookup(obj, k)) == jsonMember(str(data), k)))
+//@   loop 1 invariant j.err != nil ==> j.err.Code == ParseError || j.err.Code == InvalidRequest
+//@   loop 1 invariant (visited(loop1, "jsonrpc") && badKey(str(data), "jsonrpc") ==> j.err != nil) && (visited(loop1, "id") && badKey(str(data), "id") ==> j.err != nil) && (visited(loop1, "method") && badKey(str(data), "method") ==> j.err != nil) && (visited(loop1, "params") && badKey(str(data), "params") ==> j.err != nil) && (visited(loop1, "error") && badKey(str(data), "error") ==> j.err != nil)
+//@   loop 1 invariant (visited(loop1, "id") && idText(jsonMember(str(data), "id")) ==> str(j.ID) == jsonMember(str(data), "id")) && (!(visited(loop1, "id") && idText(jsonMember(str(data), "id"))) ==> len(j.ID) == 0)
+//@   loop 1 invariant forall(k string, visited(loop1, k) && !knownKey(k) ==> len(extra) > 0)
+//@   loop 1 invariant (!visited(loop1, "jsonrpc") ==> j.V == "") && (visited(loop1, "jsonrpc") && jsonIsString(jsonMember(str(data), "jsonrpc")) ==> j.V == jsonStringVal(jsonMember(str(data), "jsonrpc"))) && (visited(loop1, "jsonrpc") && jsonIsNull(jsonMember(str(data), "jsonrpc")) ==> j.V == "")
